@@ -692,7 +692,7 @@ func (x *Exec) loop(ls *loopSpec, st *State) *Flow {
 			}
 			ce := fx.clauseEv(back, ls.bodyPos, nil)
 			t := ce.boolOf(ce.ev(inv.Expr), inv.Expr)
-			fx.oblige("inv-pres", lname+".pres."+lbl+suffix, ls.node.Pos(), back.pc, t, "loop invariant is preserved: "+inv.Text)
+			fx.obligeSplit("inv-pres", lname+".pres."+lbl+suffix, ls.node.Pos(), back.pc, t, "loop invariant is preserved: "+inv.Text)
 		}
 		if dec != nil {
 			ce := fx.clauseEv(back, ls.bodyPos, nil)
